@@ -32,8 +32,10 @@ Tolerances (all derived here, see ``tol_pos``):
 """
 from __future__ import annotations
 
+import logging
 import math
 import os
+import signal
 from datetime import datetime, timedelta
 
 import numpy as np
@@ -42,6 +44,11 @@ from verif import framework as fw
 from verif import fakeray
 
 fakeray.install()  # keeps the real ray out of the worker processes; nothing here needs a cluster
+_lg = logging.getLogger("resonaate")
+if not _lg.handlers:
+    _lg.addHandler(logging.NullHandler())
+_lg.setLevel(100)
+_lg.propagate = False
 
 from verif.oracles import kepler_ref as kr  # noqa: E402
 
@@ -198,15 +205,15 @@ def items(tier, seed):
     for cfg in cfgs:
         for method in METHODS:
             if thorough:
-                plan = [(10.0, all_idx, [3] * 30, 0.0), (300.0, all_idx, [13, 13, 13, 13, 13, 13, 3, 3, 3, 2, 1], 600.0),
-                        (3600.0, _sp_orbits(seed, 13) + [0, 44, 89], [2] * 8, 0.0),
-                        (43200.0, _sp_orbits(seed, 2), [1, 1], 0.0)]
+                plan = [(10.0, all_idx, [3] * 30, 86400.0), (300.0, all_idx, [13, 13, 13, 13, 13, 13, 3, 3, 3, 2, 1], 87000.0),
+                        (3600.0, _sp_orbits(seed, 13) + [0, 44, 89], [2] * 8, 90000.0),
+                        (43200.0, _sp_orbits(seed, 2), [1, 1], 86400.0)]
                 if cfg in ("sp_g3all", "sp_g8"):
-                    plan = [(10.0, _sp_orbits(seed, 13), [3, 3, 3, 2, 2], 0.0), (300.0, _sp_orbits(seed, 13), [13], 600.0),
-                            (3600.0, _sp_orbits(seed, 6), [2, 2, 1, 1], 0.0)]
+                    plan = [(10.0, _sp_orbits(seed, 13), [3, 3, 3, 2, 2], 86400.0), (300.0, _sp_orbits(seed, 13), [13], 87000.0),
+                            (3600.0, _sp_orbits(seed, 6), [2, 2, 1, 1], 90000.0)]
             else:
-                plan = [(10.0, _sp_orbits(seed, 13), [3, 3, 3, 2, 2], 0.0), (300.0, _sp_orbits(seed, 13), [7, 6], 600.0),
-                        (3600.0, _sp_orbits(seed, 6), [2, 1, 1, 1, 1], 0.0)]
+                plan = [(10.0, _sp_orbits(seed, 13), [3, 3, 3, 2, 2], 86400.0), (300.0, _sp_orbits(seed, 13), [7, 6], 87000.0),
+                        (3600.0, _sp_orbits(seed, 6), [2, 1, 1, 1, 1], 90000.0)]
             for T, idxs, pattern, t0 in plan:
                 order = _rot(list(idxs), seed)
                 for ch in _chunks(order, pattern):
@@ -337,11 +344,33 @@ class _Ctx:
                              outcome="within" if ok else "outside", item=self.item)
 
 
+CALL_TIMEOUT_S = 600  # the slowest call of the thorough lattice takes ~5 s on an idle core; a restart loop that never
+# terminates (seen during development for negative times, which are outside the lattice) must become a verdict, not a hang
+
+
+class _CallTimeout(Exception):
+    pass
+
+
+def _on_alarm(signum, frame):
+    raise _CallTimeout(f"call did not return within {CALL_TIMEOUT_S} s")
+
+
 def _call(fn, *a, **kw):
     try:
+        old = signal.signal(signal.SIGALRM, _on_alarm)
+    except ValueError:  # not in the main thread: no watchdog
+        old = None
+    try:
+        if old is not None:
+            signal.alarm(CALL_TIMEOUT_S)
         return fn(*a, **kw)
     except Exception as exc:  # noqa: BLE001 - an exception on a lattice point is a reported outcome, not a harness error
         return exc
+    finally:
+        if old is not None:
+            signal.alarm(0)
+            signal.signal(signal.SIGALRM, old)
 
 
 def _bad(x):
@@ -539,6 +568,8 @@ def _epoch(ctx, orb, x0, whole, jd):
     wit = _call(_dynamics(ctx.kind, ctx.method, jd + 1000.0 / 86400.0).propagate, t0, t0 + T, x0)
     sens = 0.0 if _bad(wit) else fw.maxabs(wit[:3], whole[:3])
     for d in EPOCH_SHIFTS:
+        if t0 - d < 0.0:
+            continue  # elapsed scenario seconds are non-negative in the property's domain (SP items start at t0 >= 86400 s)
         dyn2 = _dynamics(ctx.kind, ctx.method, jd + d / 86400.0)
         got = _call(dyn2.propagate, t0 - d, t0 + T - d, x0)
         nontriv = sens * abs(d) / 1000.0 > 100.0 * tp
@@ -550,8 +581,10 @@ def _tol_universal(state_ref, mu):
     r = kr.vnorm(state_ref[:3])
     # dchi <= _ATOL  =>  dt = dchi r / sqrt(mu), |dr| <= v dt with r v / sqrt(mu) <= sqrt(2 r); x2 margin (+1e-8 km: reference)
     scale = math.sqrt(MU / mu) if mu != MU else 1.0
-    tp = 2.0 * CHI_ATOL * math.sqrt(2.0 * r) + 1e-8 * (1.0 if mu == MU else r)
-    tv = 2.0 * CHI_ATOL * math.sqrt(mu) / r + 1e-11
+    # + rounding of the f/g arithmetic (chi up to ~1e3 => ~1e3 eps relative): 1e-11 |r|, 1e-9 |v|; + reference 1e-8 km
+    v = kr.vnorm(state_ref[3:])
+    tp = 2.0 * CHI_ATOL * math.sqrt(2.0 * r) + (1e-8 if mu == MU else 1e-8 * r) + 1e-11 * r
+    tv = 2.0 * CHI_ATOL * math.sqrt(mu) / r + 1e-11 * (1.0 if mu == MU else v) + 1e-9 * v
     return tp, tv, scale
 
 
